@@ -1112,11 +1112,23 @@ where
         remote: NodeId,
         result: Result<fetch::FetchResult, FetchError>,
     ) {
-        let Some(fetching) = self.fetching.remove(&rid) else {
-            error!(target: "service", "Received unexpected fetch result for {rid}, from {remote}");
-            return;
+        let fetching = match self.fetching.entry(rid) {
+            Entry::Occupied(fetching) if fetching.get().from == remote => fetching.remove(),
+            Entry::Occupied(fetching) => {
+                // The fetch this result belongs to was dropped, eg. because the remote
+                // disconnected, and the repository is now being fetched from another node.
+                warn!(
+                    target: "service",
+                    "Ignoring stale fetch result for {rid} from {remote}, currently fetching from {}",
+                    fetching.get().from
+                );
+                return;
+            }
+            Entry::Vacant(_) => {
+                error!(target: "service", "Received unexpected fetch result for {rid}, from {remote}");
+                return;
+            }
         };
-        debug_assert_eq!(fetching.from, remote);
 
         if let Some(s) = self.sessions.get_mut(&remote) {
             // Mark this RID as fetched for this session.
